@@ -372,7 +372,7 @@ EvalCalledLambda(t, env) ==     \* t = call whose func is a lam term
 (* and lambdas by the harness (harness/props_helpers.py HELPER_SOURCE must match).            *)
 LamD(ps, nd, body, defs) == T("lam", "", nd, ps, <<body>> \o defs)
 HelperNames == {"h_id", "h_inc", "h_sub", "h_lam", "h_nest", "h_nest2", "h_two", "h_cap", "h_kw", "h_d3", "h_deep", "h_rec", "h_comp", "h_comp2", "h_la", "h_lb", "h_cd", "h_th", "h_re1", "h_re2",
-                "h_po", "h_po2", "h_ko", "h_kod", "h_kwi", "h_gl", "h_l1", "h_l2"}
+                "h_po", "h_po2", "h_ko", "h_kod", "h_kwi", "h_gl", "h_l1", "h_l2", "h_pg"}
 HelperLam(f) ==
     CASE f = "h_id"   -> Lam(<<"a">>, Name("a"))
       [] f = "h_inc"  -> Lam(<<"a">>, BinOp("+", Name("a"), IntC(1)))
@@ -419,6 +419,8 @@ HelperLam(f) ==
       \* two lambdas with the same parameter name, entries of ONE list literal written one entry per line
       [] f = "h_l1"   -> Lam(<<"j">>, BinOp("*", Name("j"), IntC(3)))
       [] f = "h_l2"   -> Lam(<<"j">>, BinOp("+", Name("j"), IntC(200)))
+      \* a parameter named like a module-level constant of the helper's own module (t = 7): the parameter wins
+      [] f = "h_pg"   -> Lam(<<"a", "t">>, BinOp("+", BinOp("*", Name("a"), IntC(10)), Name("t")))
       [] f = "h_la"   -> Lam(<<"j">>, BinOp("*", Name("j"), IntC(2)))
       [] f = "h_lb"   -> Lam(<<"j">>, BinOp("*", Name("j"), IntC(5)))
       [] f = "h_d3"   -> LamD(<<"x", "y", "z">>, 2,
